@@ -183,3 +183,4 @@ def run(ctx):
     # shared group-law obligations
     c03.check_scalar_mul(ctx, "C02.7")
     c03.check_point_add(ctx, "C02.7", "C02.7")
+    c03.check_helpers(ctx, "C02.7")
